@@ -230,3 +230,11 @@ package lang
 //@   requires p != nil && p.SystemProcess != nil
 //@   ensures imp(result != nil, p.ExitNum == $sysExit(p.SystemProcess))
 //@   ensures imp(p.$childFailed, result != nil || p.ExitNum != 0)
+
+// ---- C08: reading a variable as a string (used by the statement parser) ----------------------------
+// $varString(table, name): the string form stored for that variable (trusted getter contract;
+// the lookup order itself is C11's subject).
+//@ spec $varString(v int, name string) string
+//@ func (*Variables).GetString [C08] trusted
+//@   modifies nothing
+//@   ensures imp(result1 == nil, result == $varString(v, path))
